@@ -78,6 +78,10 @@ SCENARIOS = [
     S("1pub_1sub_wild_fresh", [P("P0", "n.x", "n.y"), C("C0", "n.*")]),
     S("2sub_preloaded", [C("C0", "a.x", 1), C("C1", "a.*", 1)], preload=["a.x"]),
     S("1pub_1sub_wildcard_channel_name", [P("P0", "job.*", "job.1"), C("C0", "job.1")]),
+    # channel names that are prefixes of one another / patterns that do not end in '*' / character classes
+    S("1pub_1sub_prefix_channel_names", [P("P0", "jobs.1", "jobs.10"), C("C0", "jobs.1", 1)]),
+    S("1pub_1sub_suffix_pattern", [P("P0", "j.7.cfg", "j.7.cfg.bak"), C("C0", "j.*.cfg", 1)]),
+    S("1pub_1sub_charclass_pattern", [P("P0", "a.x", "a.z"), C("C0", "a.[xy]", 1)]),
     # ---- three application threads
     S("2pub_fresh_shared_1sub_wild", [P("P0", "n.x"), P("P1", "n.x"), C("C0", "n.*")]),
     S("2pub_existing_1sub_exact", [P("P0", "a.x", "a.x"), P("P1", "a.x"), C("C0", "a.x")], pre=["a.x"]),
